@@ -19,6 +19,11 @@ import (
 
 func main() {
 	repo, dst := os.Args[1], os.Args[2]
+	if len(os.Args) > 3 && (os.Args[3] == "log" || os.Args[3] == "logall") {
+		everyBlock = os.Args[3] == "logall"
+		insertLogs(repo, dst)
+		return
+	}
 	fset := token.NewFileSet()
 	cfg := &packages.Config{Mode: packages.NeedName | packages.NeedFiles | packages.NeedSyntax | packages.NeedTypes | packages.NeedTypesInfo | packages.NeedImports, Dir: repo, Fset: fset,
 		Env: append(os.Environ(), "GOFLAGS=-mod=mod", "GOPROXY=off", "GOSUMDB=off", "GOTOOLCHAIN=local", "GOWORK=off")}
@@ -100,4 +105,76 @@ func main() {
 		}
 	}
 	fmt.Println("renamed", n, "identifier occurrences in", len(edits), "files")
+}
+
+var everyBlock bool
+
+// insertLogs writes a copy in which every function body of pkg/... starts with a
+// call that has no effect on the model (`println()`), the shape of an added log line.
+func insertLogs(repo, dst string) {
+	fset := token.NewFileSet()
+	cfg := &packages.Config{Mode: packages.NeedName | packages.NeedFiles | packages.NeedSyntax, Dir: repo, Fset: fset,
+		Env: append(os.Environ(), "GOFLAGS=-mod=mod", "GOPROXY=off", "GOSUMDB=off", "GOTOOLCHAIN=local", "GOWORK=off")}
+	pkgs, err := packages.Load(cfg, "./pkg/...")
+	if err != nil {
+		panic(err)
+	}
+	n := 0
+	for _, p := range pkgs {
+		for _, f := range p.Syntax {
+			name := fset.Position(f.Pos()).Filename
+			if strings.HasSuffix(name, "_test.go") {
+				continue
+			}
+			var offs []int
+			skip := map[*ast.BlockStmt]bool{}
+			ast.Inspect(f, func(nd ast.Node) bool {
+				switch x := nd.(type) {
+				case *ast.SwitchStmt:
+					skip[x.Body] = true
+				case *ast.TypeSwitchStmt:
+					skip[x.Body] = true
+				case *ast.SelectStmt:
+					skip[x.Body] = true
+				}
+				return true
+			})
+			ast.Inspect(f, func(nd ast.Node) bool {
+				switch x := nd.(type) {
+				case *ast.FuncDecl:
+					if x.Body != nil {
+						offs = append(offs, fset.Position(x.Body.Lbrace).Offset+1)
+					}
+				case *ast.FuncLit:
+					offs = append(offs, fset.Position(x.Body.Lbrace).Offset+1)
+				case *ast.BlockStmt:
+					if everyBlock && !skip[x] {
+						offs = append(offs, fset.Position(x.Lbrace).Offset+1)
+					}
+				case *ast.CaseClause:
+					if everyBlock {
+						offs = append(offs, fset.Position(x.Colon).Offset+1)
+					}
+				}
+				return true
+			})
+			if len(offs) == 0 {
+				continue
+			}
+			src, _ := os.ReadFile(name)
+			sort.Sort(sort.Reverse(sort.IntSlice(offs)))
+			last := -1
+			for _, o := range offs {
+				if o == last {
+					continue
+				}
+				last = o
+				src = append(src[:o], append([]byte(" println(); "), src[o:]...)...)
+				n++
+			}
+			rel, _ := filepath.Rel(repo, name)
+			os.WriteFile(filepath.Join(dst, rel), src, 0o644)
+		}
+	}
+	fmt.Println("inserted", n, "calls")
 }
